@@ -183,6 +183,7 @@ class Interp:
         self.fn_stack: list[FunctionInfo] = []
         self.undecided: list[str] = []
         self.heap: dict = {}   # (symbolic object tag, attribute) -> value
+        self.globals: dict = {}  # (module, name) -> value of a module-level container, shared within one trace
 
     # ------------------------------------------------------------------ driver
     def run(self, fn: FunctionInfo, env: dict, prelude: Optional[tuple] = None) -> list[tuple[list[Effect], Any, list[str]]]:
@@ -196,6 +197,7 @@ class Interp:
                 raise Budget()
             pre = pending.pop()
             self.choices, self._pos, self.trace, self.undecided = list(pre), 0, [], []
+            self.globals = {}
             if self.on_start is not None:
                 self.on_start()
             env1 = _copy_env(env)
@@ -206,9 +208,10 @@ class Interp:
                     self.call_body(prelude[0], env0, 0)
                 except _Loop:
                     pass
-                for k, v in env0.items():
-                    if k.startswith("self."):
-                        env1[k] = v
+                if self.prelude_same_object:
+                    for k, v in env0.items():
+                        if k.startswith("self."):
+                            env1[k] = v
                 self.prelude_len = len(self.trace)
             # attributes given for a symbolic object by path ('node.attr') are attributes of that object under any name
             for k_, v_ in list(env1.items()):
@@ -435,6 +438,9 @@ class Interp:
                 return BUILTIN_TYPES[e.id]
             if e.id in ("min", "max", "len", "sum", "abs", "sorted"):
                 return Sym("builtin:" + e.id)
+            g_ = self._module_global(e.id, depth)
+            if g_ is not None:
+                return g_
             if e.id in ("Union", "Annotated") and self.fn_stack:
                 full = self.prog.resolve_name(self.fn_stack[-1].module, e.id)
                 if full in ("typing.Union", "typing.Annotated"):
@@ -652,7 +658,16 @@ class Interp:
 
     def call(self, c: ast.Call, env: dict, depth: int) -> Any:
         nm = call_name(c)
-        args = [self.ev(a, env, depth) for a in c.args]
+        args = []
+        for a in c.args:
+            if isinstance(a, ast.Starred):
+                v_ = self.ev(a.value, env, depth)
+                if isinstance(v_, list):
+                    args.extend(v_)
+                else:
+                    args.append(UNKNOWN)
+            else:
+                args.append(self.ev(a, env, depth))
         kwargs = {k.arg: self.ev(k.value, env, depth) for k in c.keywords if k.arg}
         if self.call_model is not None:
             r = self.call_model(self, c, env, args, kwargs)
@@ -684,6 +699,8 @@ class Interp:
             fval = env[c.func.id]
         elif isinstance(c.func, ast.Subscript):
             fval = self.ev(c.func, env, depth)
+        elif isinstance(c.func, ast.Attribute) and _path(c.func) is not None and isinstance(env.get(_path(c.func)), (LocalFn, Sym)):
+            fval = env[_path(c.func)]     # a callable stored in an attribute (self.callable(...))
         if isinstance(fval, LocalFn) and depth < self.max_depth:
             return self.call_local(fval, args, kwargs, depth, env)
         if isinstance(fval, Sym):
@@ -693,6 +710,19 @@ class Interp:
             return Sym(f"{fval.tag}()")
         if fval is None and isinstance(c.func, ast.Subscript):
             pass
+        if isinstance(c.func, ast.Attribute) and nm in ("split", "strip", "lower", "upper", "startswith", "endswith", "join", "replace"):
+            base_s = self.ev(c.func.value, env, depth)
+            if isinstance(base_s, str) and all(isinstance(a, (str, int)) for a in args) and not kwargs:
+                if nm == "join":
+                    pass
+                else:
+                    try:
+                        r_ = getattr(base_s, nm)(*args)
+                        return list(r_) if isinstance(r_, (list, tuple)) else r_
+                    except Exception:
+                        return UNKNOWN
+            if isinstance(base_s, str) and nm == "join" and len(args) == 1 and isinstance(args[0], list) and all(isinstance(x, str) for x in args[0]):
+                return base_s.join(args[0])
         if isinstance(c.func, ast.Attribute) and nm in ("values", "keys", "items", "get", "add", "discard", "update") :
             base = self.ev(c.func.value, env, depth)
             if isinstance(base, dict):
@@ -1038,6 +1068,32 @@ def _install():
                 out[k_.arg] = self.ev(d, env, depth)
         return out
 
+    def _module_global(self, name: str, depth: int):
+        """a module-level container / constant / function of the repository used as a value: evaluated once per trace and
+        *shared* by everything interpreted in that trace (that is what module-level state is)"""
+        if not self.fn_stack:
+            return None
+        mod = self.fn_stack[-1].module
+        key = (mod.name, name)
+        if key in self.globals:
+            return self.globals[key]
+        val = None
+        for st in mod.tree.body:
+            tgt = st.targets[0] if isinstance(st, ast.Assign) and len(st.targets) == 1 else st.target if isinstance(st, ast.AnnAssign) else None
+            if isinstance(tgt, ast.Name) and tgt.id == name and getattr(st, "value", None) is not None \
+                    and isinstance(st.value, (ast.Dict, ast.List, ast.Set, ast.Tuple, ast.Constant)):
+                val = self.ev(st.value, {}, depth + 1)
+                break
+            if isinstance(st, (ast.FunctionDef, ast.AsyncFunctionDef)) and st.name == name:
+                fi = mod.functions.get(name)
+                val = LocalFn(st, {}, fi if fi is not None else self.fn_stack[-1], self._defaults(st, {}, depth))
+                break
+        if val is None or val is UNKNOWN:
+            return None
+        self.globals[key] = val
+        return val
+
+    Interp._module_global = _module_global
     Interp.call_local = call_local
     Interp.apply = apply
     Interp._defaults = _defaults
@@ -1045,6 +1101,7 @@ def _install():
     Interp.sym_result = None
     Interp.on_start = None
     Interp.allow_recursion = False
+    Interp.prelude_same_object = True
     Interp.strict_index = False
     Interp.prelude_len = 0
 
